@@ -217,7 +217,7 @@ class C12(Prop):
             if mode == "poly":
                 tol = 1e-8 * nrm * max(1.0, t) ** 5 * amp
             elif kind == "tdvp_vmf":
-                tol = 2e-6 * max(1.0, t) * nstep * nrm * amp
+                tol = 2e-7 * max(1.0, t) * nstep * nrm * amp
             else:
                 tol = 1.5e-5 * 6 * ctx.N * max(1.0, t) * nstep * nrm * amp
                 # no splitting error only for two single-basis nodes whose bond carries a COMPLETE basis of the smaller side (one-site
